@@ -225,3 +225,21 @@ prop("C09",
      not_decided=["browser-equivalence of the URL normalisation", "allowed_token / sanitize_css for unbounded inputs",
                   "svg_attr_val_allows_ref url() stripping"],
      explanation="element gate proved for arbitrary allow-lists; attribute/URL/CSS parts bounded")
+
+
+prop("C08",
+     level="proof",
+     level_text="The serializer's loop body is explored symbolically for an arbitrary raw-text state, every token kind and "
+                "every combination of the quoting / escaping / solidus options (bounded in the number of attributes, see "
+                "bounded_standins; not counted as proved): text outside raw-text elements is written with &, <, > escaped and "
+                "contains no '<' or '>', inside raw text it is written verbatim and a '</' is reported; the raw-text flag is "
+                "set exactly between the tags of a raw-text element and is local to one serialize() call (frame obligation); "
+                "comments with '--' are reported; every attribute value has & (and < on request) escaped whether or not it is "
+                "quoted, is quoted when the mode requires it, and never contains its own quote character.",
+     level_note="Trusted: pyvc, z3; str.replace as an opaque function with the library facts listed in pyvc/engine.py. These are "
+                "the local lexical conditions; that they imply 're-tokenising yields the same token' (the lemma over the C02 "
+                "spec machine) is NOT mechanised in this revision. Known findings (DESIGN.md section 9): raw text decided by "
+                "bare element name (foreign style/script, noscript), attribute namespace prefixes dropped, CR in text, comment "
+                "data starting/ending with '-', trailing solidus glued to an unquoted value.",
+     not_decided=["lexical lemma: output re-tokenises to the same tokens", "doctype and Entity tokens", "encoded output (bytes)"],
+     explanation="loop body under a step contract, bounded in attribute count")
